@@ -425,7 +425,7 @@ auto count_min_sketch<W,A>::deserialize(const void* bytes, size_t size, uint64_t
   const bool is_empty = (flags_byte & (1 << flags::IS_EMPTY)) > 0;
   if (is_empty) return c; // sketch is empty, no need to read further.
 
-  ensure_minimum_memory(size, sizeof(W) * (1 + nbuckets * nhashes));
+  ensure_minimum_memory(size, PREAMBLE_LONGS_SHORT * sizeof(uint64_t) + sizeof(W) * (1 + static_cast<size_t>(nbuckets) * nhashes));
 
   // Long 2 is the weight.
   W weight;
